@@ -458,6 +458,36 @@ func slotsCase(rt *rapid.T, prop string, lap bool) {
 			})
 			return s
 		}
+		// A lone request which is abandoned after its submission, then the
+		// next one of its kind: the broker still owes the first answer, so
+		// the identifier is not free (nothing else is pending meanwhile).
+		if rapid.Bool().Draw(rt, "loneAbandonedFirst") {
+			a := issue(-1, false)
+			if !h.IsDone(a.call) && a.id != 0 {
+				close(a.quit)
+				h.MustPoll("abandoned request returning", func() bool { return h.IsDone(a.call) })
+				b := issue(-4, false) // (same kind as a: both indexes are ≡ 2 mod 3)
+				if b.id == a.id {
+					h.Failf("a lone request was abandoned after submission (identifier %#04x, its answer is still owed); the very next request got the same identifier", a.id)
+				}
+				h.Act("the late answer to the abandoned request, then the answer to its successor")
+				h.App.Step()
+				h.releaseByID(a.id)
+				h.settleInbound()
+				if h.IsDone(b.call) {
+					h.Failf("the late answer to the abandoned request %#04x completed the request which followed it (%#04x): returned %v", a.id, b.id, b.call.Err)
+				}
+				if !h.releaseByID(b.id) {
+					h.Failf("VERIF-INFRA: no owed answer for %#04x", b.id)
+				}
+				h.MustPoll("answered request returning", func() bool { return h.IsDone(b.call) })
+				if b.call.Err != nil {
+					h.Failf("request %#04x was answered, yet returned %v", b.id, b.call.Err)
+				}
+				h.label("lone-request-abandoned-then-successor")
+				nontrivial = true
+			}
+		}
 		for i := 0; i < n; i++ {
 			s := issue(i, false)
 			slots = append(slots, s)
